@@ -156,3 +156,465 @@ Proof.
       * eapply Hd; eauto; apply in_or_app; auto.
       * eapply Hd2; eauto.
 Qed.
+
+(* ---------------------------------------------------------------- invariant plumbing *)
+Lemma NoDup_vecl : forall v, NoDup (vecl v).
+Proof. destruct v; simpl; repeat constructor; auto. Qed.
+
+Lemma NoDup_owned_inv : forall b v k, NoDup (b :: vecl v ++ k) ->
+  ~ In b (vecl v) /\ ~ In b k /\ NoDup k /\ (forall x, In x (vecl v) -> ~ In x k).
+Proof.
+  intros b v k H; inversion H; subst. destruct (NoDup_app_inv _ _ H3) as [_ [Hk Hd]].
+  split; [intro Hin; apply H2; apply in_or_app; auto|].
+  split; [intro Hin; apply H2; apply in_or_app; auto|].
+  split; assumption.
+Qed.
+
+Lemma NoDup_owned_intro : forall b v k,
+  ~ In b (vecl v) -> ~ In b k -> NoDup k -> (forall x, In x (vecl v) -> ~ In x k) -> NoDup (b :: vecl v ++ k).
+Proof.
+  intros b v k H1 H2 H3 H4; constructor.
+  - intro Hin; apply in_app_or in Hin; tauto.
+  - apply NoDup_app_intro; auto. apply NoDup_vecl.
+Qed.
+
+Lemma Inv_ids_eq : forall l s s', Inv l s -> wf s' -> (forall x, In x (ids s') <-> In x (ids s)) -> Inv l s'.
+Proof.
+  intros l s s' [Hw [Hnd [Hiff [Hlen Hv]]]] Hw' Hi.
+  split; [assumption|split; [assumption|split; [|split; assumption]]].
+  intro x; rewrite Hi; apply Hiff.
+Qed.
+
+Lemma Inv_vec_live : forall l s b, Inv l s -> vec l = Some b -> In b (ids s).
+Proof.
+  intros l s b [_ [_ [Hiff _]]] Hv; apply Hiff; unfold owned; rewrite Hv; simpl; auto.
+Qed.
+
+Lemma safe_vaccess : forall l s i n, Inv l s ->
+  (n = 0 \/ (0 <= i /\ 0 < n /\ i + n <= lalloc l)) -> safe (vaccess l i n) s (fun _ s' => s' = s).
+Proof.
+  intros l s i n HI Hr; unfold vaccess. destruct (Z.eqb_spec n 0) as [He|Hne].
+  - apply safe_ret; reflexivity.
+  - destruct Hr as [Hr|[H0 [Hn Hle]]]; [contradiction|].
+    destruct HI as [Hw [Hnd [Hiff [Hlen Hv]]]].
+    destruct (vec l) as [b|] eqn:Hvec; [|exfalso; apply Hv; [lia | reflexivity]].
+    assert (Hlive : is_live b s = true).
+    { apply is_live_iff, Hiff; unfold owned; rewrite Hvec; simpl; auto. }
+    exists tt, s; split; auto. unfold bind, touch; rewrite Hlive. unfold check_range, range_ok.
+    replace (0 <=? i) with true by (symmetry; apply Z.leb_le; lia).
+    replace (0 <=? n) with true by (symmetry; apply Z.leb_le; lia).
+    replace (i + n <=? lalloc l) with true by (symmetry; apply Z.leb_le; lia).
+    rewrite orb_true_r; reflexivity.
+Qed.
+
+Arguments grow : simpl never.
+
+Lemma safe_check_allocation : forall l s size, Inv l s ->
+  safe (check_allocation l size) s (fun r s' =>
+    Inv (snd r) s' /\ items (snd r) = items l /\ (fst r = true -> size <= lalloc (snd r)) /\
+    (forall x, In x (ids s) -> (x < fresh s')%nat) /\ (fresh s <= fresh s')%nat).
+Proof.
+  intros l s size HI; unfold check_allocation.
+  assert (Hfr : forall x, In x (ids s) -> (x < fresh s)%nat) by (destruct HI as [[_ H] _]; exact H).
+  destruct (Z.leb_spec size (lalloc l)) as [Hle|Hgt].
+  - apply safe_ret; simpl; split; [assumption|]; repeat split; auto.
+  - destruct (Z.leb_spec (grow 64 (Z.max 8 (lalloc l)) size) size) as [Hov|Hbig].
+    + apply safe_ret; simpl; split; [assumption|]; repeat split; auto; discriminate.
+    + apply safe_bind. pose proof HI as [Hw [Hnd [Hiff [Hlen Hv]]]].
+      eapply safe_weaken; [apply safe_realloc; auto; intros b Hb; eapply Inv_vec_live; eauto|].
+      intros r s' [Hw' Hr]; destruct r as [b|].
+      * destruct Hr as [Hb [Hni [Hfs Hi]]]. apply safe_ret; simpl.
+        split; [|split; [reflexivity|split; [intros _; lia|split; [intros x Hx; apply Hfr in Hx; lia | lia]]]].
+        unfold Inv, owned, llen in *; simpl.
+        destruct (NoDup_owned_inv _ _ _ Hnd) as [Hb1 [Hb2 [Hk Hd]]].
+        assert (Hnb : forall x, In x (lblk l :: vecl (vec l) ++ kids (items l)) -> x <> b).
+        { intros x Hx He; subst x; apply Hni, Hiff; assumption. }
+        split; [assumption|split; [|split; [|split; [lia | intros _; discriminate]]]].
+        -- apply (NoDup_owned_intro (lblk l) (Some b) (kids (items l))); auto.
+           ++ simpl; intros [He|[]]. apply (Hnb (lblk l)); [left; reflexivity | auto].
+           ++ simpl; intros x [Hx|[]] Hin; subst x. apply (Hnb b); [right; apply in_or_app; auto | reflexivity].
+        -- intro x; rewrite Hi; simpl; split.
+           ++ intros [Hx|[Hx Hne]]; [right; left; auto|]. apply Hiff in Hx; destruct Hx as [Hx|Hx]; [left; auto|].
+              apply in_app_or in Hx; destruct Hx as [Hx|Hx]; [|right; right; auto].
+              exfalso; apply Hne. destruct (vec l); simpl in Hx; [destruct Hx as [Hx|[]]; subst; reflexivity | destruct Hx].
+           ++ intros [Hx|[Hx|Hx]].
+              ** right; split; [apply Hiff; left; auto|]. intro He. apply Hb1. rewrite <- He; simpl; left; auto.
+              ** left; auto.
+              ** right; split; [apply Hiff; right; apply in_or_app; auto|]. intro He.
+                 eapply Hd; [rewrite <- He; simpl; left; reflexivity | exact Hx].
+      * destruct Hr as [Hi [Hf _]]. apply safe_ret; simpl.
+        split; [eapply Inv_ids_eq; eauto; intro x; rewrite Hi; tauto|].
+        repeat split; auto; [intro; discriminate | rewrite Hf; auto | rewrite Hf; lia].
+Qed.
+
+Lemma Inv_items : forall l s its, Inv l s -> kids its = kids (items l) ->
+  Z.of_nat (length its) <= lalloc l -> Inv (mkL (lblk l) (vec l) (lalloc l) its) s.
+Proof.
+  intros l s its [Hw [Hnd [Hiff [Hlen Hv]]]] Hk Hl; unfold Inv, owned, llen in *; simpl; rewrite Hk.
+  split; [assumption|split; [assumption|split; [assumption|split; assumption]]].
+Qed.
+
+Definition anchor_post (r : plist * option Z * errno_c) (s' : astate) : Prop :=
+  let '(l', a, e) := r in Inv l' s' /\ match a with Some i => 0 <= i < llen l' | None => True end.
+
+Lemma safe_list_subtree : forall l s add index, Inv l s ->
+  safe (list_subtree Fixed l add index) s anchor_post.
+Proof.
+  intros l s add index HI; unfold list_subtree.
+  destruct (Z.ltb_spec index 0); [apply safe_ret; simpl; auto|].
+  destruct (Z.leb_spec (llen l) index).
+  - destruct add; simpl; [|apply safe_ret; simpl; auto].
+    destruct (Z.eqb_spec index INT_MAX); [apply safe_ret; simpl; auto|].
+    apply safe_bind. eapply safe_weaken; [apply safe_check_allocation; assumption|].
+    intros [ok l'] s' [HI' [Hit [Hsz _]]]; simpl in *. destruct ok.
+    + apply safe_ret; simpl. specialize (Hsz eq_refl).
+      assert (Hll : llen l' = llen l) by (unfold llen; rewrite Hit; reflexivity).
+      assert (Hlen : Z.of_nat (length (items l' ++ repeat None (Z.to_nat (index + 1 - llen l')))) = index + 1).
+      { rewrite app_length, repeat_length. unfold llen in *. rewrite Hit in *. lia. }
+      split.
+      * apply Inv_items; auto; [rewrite kids_app, kids_repeat_none, app_nil_r; reflexivity | lia].
+      * unfold llen; simpl. unfold llen in Hlen. lia.
+    + apply safe_ret; simpl; auto.
+  - apply safe_ret; simpl; split; auto; lia.
+Qed.
+
+Lemma safe_list_insert : forall l s index, Inv l s ->
+  safe (list_insert Fixed l index) s anchor_post.
+Proof.
+  intros l s index HI; unfold list_insert.
+  destruct (Z.ltb_spec index 0); [apply safe_ret; simpl; auto|].
+  destruct (Z.leb_spec (llen l) index); [apply safe_list_subtree; assumption|].
+  apply safe_bind. eapply safe_weaken; [apply safe_check_allocation; assumption|].
+  intros [ok l'] s' [HI' [Hit [Hsz _]]]; simpl in *. destruct ok; simpl; [|apply safe_ret; simpl; auto].
+  specialize (Hsz eq_refl).
+  assert (Hll : llen l' = llen l) by (unfold llen; rewrite Hit; reflexivity).
+  apply safe_bind. eapply safe_weaken; [apply safe_vaccess; [exact HI' | right; lia]|].
+  intros u1 s1 Hs1; simpl in Hs1; subst s1; clear u1.
+  apply safe_bind. eapply safe_weaken; [apply safe_vaccess; [exact HI' | right; lia]|].
+  intros u1 s1 Hs1; simpl in Hs1; subst s1; clear u1.
+  apply safe_ret; simpl. split.
+  - apply Inv_items; auto; [apply kids_insert_none | rewrite length_insert_at; unfold llen in *; lia].
+  - unfold llen in *; simpl. rewrite length_insert_at. lia.
+Qed.
+
+Lemma safe_list_append : forall l s, Inv l s -> safe (list_append l) s anchor_post.
+Proof.
+  intros l s HI; unfold list_append.
+  apply safe_bind. eapply safe_weaken; [apply safe_check_allocation; assumption|].
+  intros [ok l'] s' [HI' [Hit [Hsz _]]]; simpl in *. destruct ok; simpl; [|apply safe_ret; simpl; auto].
+  specialize (Hsz eq_refl).
+  assert (Hll : llen l' = llen l) by (unfold llen; rewrite Hit; reflexivity).
+  assert (H0 : 0 <= llen l') by (unfold llen; lia).
+  apply safe_bind. eapply safe_weaken; [apply safe_vaccess; [exact HI' | right; lia]|].
+  intros u1 s1 Hs1; simpl in Hs1; subst s1; clear u1.
+  apply safe_ret; simpl. split.
+  - apply Inv_items; auto; [rewrite kids_app; simpl; apply app_nil_r | rewrite app_length; simpl; unfold llen in *; lia].
+  - unfold llen in *; simpl. rewrite app_length; simpl. lia.
+Qed.
+
+(* scalar_alloc: both blocks or nothing *)
+Lemma safe_scalar_alloc : forall s, wf s ->
+  safe scalar_alloc s (fun c s' => wf s' /\
+    match c with
+    | Some (p, v) => p <> v /\ ~ In p (ids s) /\ ~ In v (ids s) /\
+                     (forall x, In x (ids s') <-> x = p \/ x = v \/ In x (ids s))
+    | None => forall x, In x (ids s') <-> In x (ids s)
+    end).
+Proof.
+  intros s Hw; unfold scalar_alloc.
+  apply safe_bind. eapply safe_weaken; [apply safe_malloc; assumption|].
+  intros [v|] s1 [Hw1 H1].
+  - destruct H1 as [Hv [Hnv [Hids1 Hf1]]].
+    apply safe_bind. eapply safe_weaken; [apply safe_malloc; assumption|].
+    intros [p|] s2 [Hw2 H2].
+    + destruct H2 as [Hp [Hnp [Hids2 Hf2]]]. apply safe_ret. split; auto.
+      rewrite Hids1 in Hnp. simpl in Hnp.
+      split; [intro; subst; apply Hnp; auto|]. split; [intro; apply Hnp; auto|]. split; [assumption|].
+      intro x; rewrite Hids2, Hids1; simpl; split; intros [H|[H|H]]; subst; auto.
+    + destruct H2 as [Hids2 [Hf2 _]].
+      apply safe_bind. eapply safe_weaken; [apply safe_free; [assumption | rewrite Hids2, Hids1; simpl; auto]|].
+      intros _ s3 [Hw3 [Hf3 Hi3]]. apply safe_ret. split; auto.
+      intro x; rewrite Hi3, Hids2, Hids1; simpl. split; [intros [[He|Hx] Hne]; [congruence | auto] | intro Hx; split; auto; intro; subst; tauto].
+  - apply safe_ret. split; auto. destruct H1 as [Hi _]. intro x; rewrite Hi; tauto.
+Qed.
+
+Lemma safe_free_child : forall c s, wf s -> NoDup (kid c) -> (forall x, In x (kid c) -> In x (ids s)) ->
+  safe (free_child c) s (fun _ s' => wf s' /\ (forall x, In x (ids s') <-> In x (ids s) /\ ~ In x (kid c))).
+Proof.
+  intros [[p v]|] s Hw Hnd Hin; simpl.
+  - apply safe_bind. eapply safe_weaken; [apply safe_free; [assumption | apply Hin; simpl; auto]|].
+    intros _ s1 [Hw1 [_ Hi1]].
+    eapply safe_weaken; [apply safe_free; [assumption|]|].
+    + apply Hi1; split; [apply Hin; simpl; auto|]. inversion Hnd; subst; simpl in *; intro; subst; tauto.
+    + intros _ s2 [Hw2 [_ Hi2]]. split; auto.
+      intro x; rewrite Hi2, Hi1; simpl. split.
+      * intros [[Hx Hv] Hp]; split; auto. intros [He|[He|[]]]; subst; tauto.
+      * intros [Hx Hn]; repeat split; auto; intro; subst; apply Hn; auto.
+  - apply safe_ret; split; auto. intro x; simpl; tauto.
+Qed.
+
+Lemma NoDup_kid_nth : forall n l, NoDup (kids l) -> NoDup (kid (nth n l None)).
+Proof.
+  induction n; destruct l as [|c l]; simpl; intro H; try constructor.
+  - fold (kids l) in H. apply NoDup_app_inv in H; tauto.
+  - fold (kids l) in H. apply NoDup_app_inv in H. apply IHn; tauto.
+Qed.
+
+Definition vec_ok (l : plist) (s : astate) : Prop := 0 < lalloc l -> exists b, vec l = Some b /\ In b (ids s).
+
+Lemma Inv_vec_ok : forall l s, Inv l s -> vec_ok l s.
+Proof.
+  intros l s HI Hpos. pose proof HI as [_ [_ [_ [_ Hv]]]]. destruct (vec l) as [b|] eqn:Hb; [|exfalso; apply Hv; auto].
+  exists b; split; auto. eapply Inv_vec_live; eauto.
+Qed.
+
+Lemma safe_vaccess' : forall l s i n, vec_ok l s ->
+  (n = 0 \/ (0 <= i /\ 0 < n /\ i + n <= lalloc l)) -> safe (vaccess l i n) s (fun _ s' => s' = s).
+Proof.
+  intros l s i n Hok Hr; unfold vaccess. destruct (Z.eqb_spec n 0) as [He|Hne].
+  - apply safe_ret; reflexivity.
+  - destruct Hr as [Hr|[H0 [Hn Hle]]]; [contradiction|].
+    destruct (Hok ltac:(lia)) as [b [Hvec Hin]].
+    assert (Hlive : is_live b s = true) by (apply is_live_iff; assumption).
+    exists tt, s; split; auto. unfold bind, touch; rewrite Hvec, Hlive. unfold check_range, range_ok.
+    replace (0 <=? i) with true by (symmetry; apply Z.leb_le; lia).
+    replace (0 <=? n) with true by (symmetry; apply Z.leb_le; lia).
+    replace (i + n <=? lalloc l) with true by (symmetry; apply Z.leb_le; lia).
+    rewrite orb_true_r; reflexivity.
+Qed.
+
+(* the common core of install and delete: cell n's blocks leave, optionally a new child enters *)
+Lemma Inv_replace : forall l s s2 n c,
+  Inv l s -> (n < length (items l))%nat -> wf s2 ->
+  NoDup (kid c) -> (forall x, In x (kid c) -> ~ In x (ids s)) ->
+  (forall x, In x (ids s2) <-> (In x (kid c) \/ In x (ids s)) /\ ~ In x (kid (nth n (items l) None))) ->
+  Inv (mkL (lblk l) (vec l) (lalloc l) (upd (items l) n c)) s2.
+Proof.
+  intros l s s2 n c [Hw [Hnd [Hiff [Hlen Hv]]]] Hn Hw2 Hc Hfresh Hi2.
+  unfold Inv, owned, llen in *; simpl.
+  destruct (NoDup_owned_inv _ _ _ Hnd) as [Hb1 [Hb2 [Hk Hd]]].
+  destruct (kids_remove_at n (items l) Hn Hk) as [Hrn Hriff].
+  assert (Hsub : forall x, In x (kids (remove_at n (items l))) -> In x (kids (items l))) by (intros x Hx; apply Hriff in Hx; tauto).
+  assert (Hkin : forall x, In x (kids (items l)) -> In x (ids s)) by (intros x Hx; apply Hiff; right; apply in_or_app; auto).
+  assert (Hold : forall x, In x (kid (nth n (items l) None)) -> In x (kids (items l))) by (intros x Hx; eapply nth_kids_in; eauto).
+  split; [assumption|]. split; [|split; [|split; [rewrite length_upd; assumption | assumption]]].
+  - apply NoDup_owned_intro; auto.
+    + intro Hin; apply kids_upd in Hin; [|assumption]. destruct Hin as [Hin|Hin].
+      * eapply Hfresh; eauto. apply Hiff; left; reflexivity.
+      * apply Hb2; auto.
+    + apply NoDup_kids_upd; auto. intros x Hx Hin; eapply Hfresh; eauto.
+    + intros x Hx Hin. apply kids_upd in Hin; [|assumption]. destruct Hin as [Hin|Hin].
+      * eapply Hfresh; eauto. apply Hiff; right; apply in_or_app; auto.
+      * eapply Hd; eauto.
+  - intro x; rewrite Hi2. simpl. rewrite in_app_iff. rewrite (kids_upd n (items l) c Hn x). rewrite Hriff. rewrite Hiff. simpl. rewrite in_app_iff.
+    split.
+    + intros [[Hx|[Hx|[Hx|Hx]]] Hno]; auto.
+    + intros [Hx|[Hx|[Hx|[Hx Hno]]]].
+      * split; [right; left; assumption|]. intro Ho; apply Hb2; apply Hold; subst; assumption.
+      * split; [right; right; left; assumption|]. intro Ho; eapply Hd; eauto.
+      * split; [left; assumption|]. intro Ho; eapply Hfresh; eauto.
+      * split; auto.
+Qed.
+
+Lemma upd_remove_none : forall A n (l : list (option A)), (n < length l)%nat -> True.
+Proof. auto. Qed.
+
+Lemma safe_install : forall l s i, Inv l s -> 0 <= i < llen l ->
+  safe (install l i) s (fun r s' => Inv (fst r) s').
+Proof.
+  intros l s i HI Hi; unfold install. pose proof HI as [Hw [Hnd [Hiff [Hlen Hv]]]].
+  apply safe_bind. eapply safe_weaken; [apply safe_scalar_alloc; assumption|].
+  intros [[p v]|] s1 [Hw1 H1].
+  - destruct H1 as [Hpv [Hnp [Hnv Hi1]]].
+    assert (Hn : (Z.to_nat i < length (items l))%nat) by (unfold llen in Hi; lia).
+    destruct (NoDup_owned_inv _ _ _ Hnd) as [Hb1 [Hb2 [Hk Hd]]].
+    apply safe_bind. eapply safe_weaken; [apply safe_vaccess'; [|right; unfold llen in *; lia]|].
+    { intro Hpos. destruct (Inv_vec_ok l s HI Hpos) as [b [Hb Hin]]. exists b; split; auto. apply Hi1; auto. }
+    intros u1 s2 Hs2; simpl in Hs2; subst s2; clear u1.
+    apply safe_bind. eapply safe_weaken; [apply safe_free_child; [assumption | apply NoDup_kid_nth; assumption |]|].
+    { intros x Hx. apply Hi1. right; right. apply Hiff. right; apply in_or_app; right. eapply nth_kids_in; eauto. }
+    intros u1 s2 [Hw2 Hi2]. apply safe_ret; simpl.
+    apply (Inv_replace l s s2 (Z.to_nat i) (Some (p, v))); auto.
+    + simpl. constructor; [simpl; intros [He|[]]; congruence | constructor; [simpl; tauto | constructor]].
+    + simpl; intros x [Hx|[Hx|[]]]; subst; assumption.
+    + intro x; rewrite Hi2, Hi1; simpl. split.
+      * intros [[Hx|[Hx|Hx]] Hno]; split; auto.
+      * intros [[[Hx|[Hx|[]]]|Hx] Hno]; split; auto.
+  - apply safe_ret; simpl. eapply Inv_ids_eq; eauto.
+Qed.
+
+Lemma safe_list_delete : forall l s index, Inv l s ->
+  safe (list_delete Fixed l index) s (fun r s' => Inv (fst r) s').
+Proof.
+  intros l s index HI; unfold list_delete. pose proof HI as [Hw [Hnd [Hiff [Hlen Hv]]]].
+  destruct (Z.ltb_spec index 0); [apply safe_ret; assumption|].
+  destruct (Z.leb_spec (llen l) index); [apply safe_ret; assumption|].
+  assert (Hn : (Z.to_nat index < length (items l))%nat) by (unfold llen in *; lia).
+  destruct (NoDup_owned_inv _ _ _ Hnd) as [Hb1 [Hb2 [Hk Hd]]].
+  apply safe_bind. eapply safe_weaken; [apply safe_vaccess; [assumption | right; unfold llen in *; lia]|].
+  intros u1 s1 Hs1; simpl in Hs1; subst s1; clear u1.
+  apply safe_bind. eapply safe_weaken; [apply safe_free_child; [assumption | apply NoDup_kid_nth; assumption |]|].
+  { intros x Hx. apply Hiff. right; apply in_or_app; right. eapply nth_kids_in; eauto. }
+  intros u1 s2 [Hw2 Hi2].
+  assert (Hok2 : vec_ok l s2).
+  { intro Hpos. destruct (Inv_vec_ok l s HI Hpos) as [b [Hb Hin]]. exists b; split; auto. apply Hi2; split; auto.
+    intro Ho. eapply Hd; [rewrite Hb; simpl; left; reflexivity | eapply nth_kids_in; eauto]. }
+  apply safe_bind. eapply safe_weaken; [apply safe_vaccess'; [assumption | unfold llen in *; lia]|].
+  intros u2 s3 Hs3; simpl in Hs3; subst s3; clear u2.
+  apply safe_bind. eapply safe_weaken; [apply safe_vaccess'; [assumption | unfold llen in *; lia]|].
+  intros u2 s3 Hs3; simpl in Hs3; subst s3; clear u2.
+  apply safe_bind. eapply safe_weaken; [apply safe_vaccess'; [assumption | right; unfold llen in *; lia]|].
+  intros u2 s3 Hs3; simpl in Hs3; subst s3; clear u2.
+  apply safe_ret; simpl.
+  destruct (kids_remove_at (Z.to_nat index) (items l) Hn Hk) as [Hrn Hriff].
+  unfold Inv, owned, llen in *; simpl.
+  split; [assumption|]. split; [|split; [|split; [rewrite length_remove_at by assumption; lia | assumption]]].
+  - apply NoDup_owned_intro; auto.
+    + intro Hin; apply Hriff in Hin; tauto.
+    + intros x Hx Hin; apply Hriff in Hin; eapply Hd; eauto; tauto.
+  - intro x; rewrite Hi2, Hiff; simpl. rewrite !in_app_iff, Hriff. split.
+    + intros [[Hx|[Hx|Hx]] Hno]; auto.
+    + intros [Hx|[Hx|[Hx Hno]]].
+      * split; auto. intro Ho; apply Hb2; subst; eapply nth_kids_in; eauto.
+      * split; auto. intro Ho; eapply Hd; eauto; eapply nth_kids_in; eauto.
+      * split; auto.
+Qed.
+
+Lemma safe_lstep : forall l s op, Inv l s -> safe (lstep Fixed l op) s (fun r s' => Inv (fst r) s').
+Proof.
+  intros l s op HI; destruct op as [|i|i|i|i]; simpl.
+  - apply safe_bind. eapply safe_weaken; [apply safe_list_append; assumption|].
+    intros [[l' a] e] s' [HI' Ha]. destruct a as [j|]; [apply safe_install; assumption | apply safe_ret; assumption].
+  - apply safe_bind. eapply safe_weaken; [apply safe_list_subtree; assumption|].
+    intros [[l' a] e] s' [HI' Ha]. destruct a as [j|]; [apply safe_install; assumption | apply safe_ret; assumption].
+  - apply safe_bind. eapply safe_weaken; [apply safe_list_insert; assumption|].
+    intros [[l' a] e] s' [HI' Ha]. destruct a as [j|]; [apply safe_install; assumption | apply safe_ret; assumption].
+  - apply safe_list_delete; assumption.
+  - apply safe_bind. eapply safe_weaken; [apply safe_list_subtree; assumption|].
+    intros [[l' a] e] s' [HI' Ha]. destruct a as [j|]; [|apply safe_ret; assumption].
+    apply safe_bind. eapply safe_weaken; [apply safe_vaccess; [exact HI' | right; destruct HI' as [_ [_ [_ [Hl _]]]]; lia]|].
+    intros u1 s1 Hs1; simpl in Hs1; subst s1. apply safe_ret; assumption.
+Qed.
+
+Lemma safe_lrun : forall ops l s, Inv l s -> safe (lrun Fixed l ops) s (fun r s' => Inv (fst r) s').
+Proof.
+  induction ops as [|op ops IH]; intros l s HI; simpl.
+  - apply safe_ret; assumption.
+  - apply safe_bind. eapply safe_weaken; [apply safe_lstep; assumption|].
+    intros [l' o] s' HI'; simpl in HI'.
+    apply safe_bind. eapply safe_weaken; [apply IH; exact HI'|].
+    intros [l'' os] s'' HI''; simpl in *. apply safe_ret; assumption.
+Qed.
+
+Lemma safe_free_items : forall its s, wf s -> NoDup (kids its) -> (forall x, In x (kids its) -> In x (ids s)) ->
+  safe (free_items its) s (fun _ s' => wf s' /\ (forall x, In x (ids s') <-> In x (ids s) /\ ~ In x (kids its))).
+Proof.
+  induction its as [|c its IH]; intros s Hw Hnd Hin; simpl.
+  - apply safe_ret; split; auto. intro x; tauto.
+  - fold (kids its) in *. destruct (NoDup_app_inv _ _ Hnd) as [Hc [Hk Hd]].
+    apply safe_bind. eapply safe_weaken; [apply safe_free_child; [assumption | assumption | intros x Hx; apply Hin; apply in_or_app; auto]|].
+    intros u1 s1 [Hw1 Hi1].
+    eapply safe_weaken; [apply IH; [assumption | assumption |]|].
+    + intros x Hx; apply Hi1; split; [apply Hin; apply in_or_app; auto | intro Hc'; eapply Hd; eauto].
+    + intros u2 s2 [Hw2 Hi2]; split; auto. intro x; rewrite Hi2, Hi1, in_app_iff; tauto.
+Qed.
+
+Lemma safe_lfree : forall l s, Inv l s -> safe (lfree l) s (fun _ s' => live s' = []).
+Proof.
+  intros l s [Hw [Hnd [Hiff [Hlen Hv]]]]; unfold lfree.
+  destruct (NoDup_owned_inv _ _ _ Hnd) as [Hb1 [Hb2 [Hk Hd]]].
+  apply safe_bind. eapply safe_weaken; [apply safe_free_items; [assumption | assumption |]|].
+  { intros x Hx; apply Hiff; right; apply in_or_app; auto. }
+  intros u1 s1 [Hw1 Hi1].
+  assert (Hlb : forall s2, wf s2 -> (forall x, In x (ids s2) <-> x = lblk l) ->
+                safe (free (Some (lblk l))) s2 (fun _ s' => live s' = [])).
+  { intros s2 Hw2 Hi2. eapply safe_weaken; [apply safe_free; [assumption | apply Hi2; reflexivity]|].
+    intros u s3 [Hw3 [_ Hi3]]. apply ids_nil_live_nil. intros x Hx; apply Hi3 in Hx. destruct Hx as [Hx Hne]; apply Hi2 in Hx; contradiction. }
+  apply safe_bind. unfold owned in Hiff. destruct (vec l) as [b|] eqn:Hvec; simpl in Hd, Hb1, Hiff.
+  - eapply safe_weaken; [apply safe_free; [assumption|]|].
+    + apply Hi1; split; [apply Hiff; right; left; reflexivity | intro Hx; eapply Hd; eauto].
+    + intros u2 s2 [Hw2 [_ Hi2]]. apply Hlb; auto.
+      intro x; rewrite Hi2, Hi1, Hiff. split.
+      * intros [[[Hx|[Hx|Hx]] Hno] Hne]; [auto | subst; contradiction | contradiction].
+      * intro; subst x. split; [split; auto|]. intro He; apply Hb1; auto.
+  - exists tt, s1; split; [reflexivity|]. apply Hlb; auto.
+    intro x; rewrite Hi1, Hiff. split.
+    + intros [[Hx|Hx] Hno]; [auto | contradiction].
+    + intro; subst x; split; auto.
+Qed.
+
+(* every history, every fault point: the run never faults and ends with an empty ledger *)
+Lemma history_safe : forall ops k,
+  safe (history Fixed ops) (start k) (fun _ s' => live s' = []).
+Proof.
+  intros ops k; unfold history, lnew.
+  apply safe_bind. apply safe_bind.
+  eapply safe_weaken; [apply safe_malloc; apply wf_start|].
+  intros [b|] s1 [Hw1 H1].
+  - destruct H1 as [Hb [Hnb [Hids Hf]]]. apply safe_ret.
+    assert (HI : Inv (mkL b None 0 []) s1).
+    { unfold Inv, owned, llen; simpl. split; [assumption|]. split; [repeat constructor; simpl; tauto|].
+      split; [|split; lia]. intro x; rewrite Hids; simpl. tauto. }
+    apply safe_bind. eapply safe_weaken; [apply safe_lrun; exact HI|].
+    intros [l' os] s2 HI2; simpl in HI2.
+    apply safe_bind. eapply safe_weaken; [apply safe_lfree; exact HI2|].
+    intros u s3 H3. apply safe_ret; assumption.
+  - destruct H1 as [Hids _]. apply safe_ret. apply safe_ret.
+    apply ids_nil_live_nil. rewrite Hids; simpl; tauto.
+Qed.
+
+Theorem plist_no_fault_lemma : forall ops k f, history Fixed ops (start k) <> Fault f.
+Proof.
+  intros ops k f H. destruct (history_safe ops k) as [a [s' [He _]]]. rewrite He in H; discriminate.
+Qed.
+
+Theorem plist_no_leak_lemma : forall ops k os s',
+  history Fixed ops (start k) = Ok (os, s') -> live s' = [].
+Proof.
+  intros ops k os s' H. destruct (history_safe ops k) as [a [s2 [He Hl]]]. rewrite He in H; inversion H; subst; assumption.
+Qed.
+
+(* single call, arbitrary fault point: the call completes (Done or an errno), the invariant holds
+   afterwards: every live block is owned by the list (nothing orphaned) and the list is usable *)
+Theorem plist_fault_clean_lemma : forall op l s, Inv l s ->
+  exists l' o s', lstep Fixed l op s = Ok ((l', o), s') /\ Inv l' s'.
+Proof.
+  intros op l s HI. destruct (safe_lstep l s op HI) as [[l' o] [s' [He HI']]]. exists l', o, s'; auto.
+Qed.
+
+Lemma Inv_initial : Inv (mkL 0%nat None 0 []) (mkA None [(0%nat, 32)] 1).
+Proof.
+  unfold Inv, owned, llen, wf, ids; simpl.
+  split; [split; [repeat constructor; simpl; tauto | intros x [Hx|[]]; subst; lia]|].
+  split; [repeat constructor; simpl; tauto|]. split; [intro x; tauto | split; lia].
+Qed.
+
+(* the hypotheses are satisfiable: a list with three cells, two of them filled, allocation 8 *)
+Example Inv_satisfiable : exists l s, Inv l s /\ llen l = 3 /\ lalloc l = 8 /\ length (live s) = 6%nat.
+Proof.
+  destruct (safe_lrun [LAppend; LSet 2] _ _ Inv_initial) as [[l' os] [s' [He HI']]].
+  vm_compute in He. inversion He; subst. eexists; eexists; split; [exact HI'|]. vm_compute; auto.
+Qed.
+
+(* ---------------------------------------------------------------- refutations of the code as first read *)
+Theorem plist_delete_orig_oob_refuted_lemma :
+  exists ops, history Orig ops (start None) = Fault OOB.
+Proof. exists (repeat LAppend 8 ++ [LDelete 0]); vm_compute; reflexivity. Qed.
+
+Theorem plist_delete_orig_leak_refuted_lemma :
+  exists ops os s, history Orig ops (start None) = Ok (os, s) /\ live s <> [].
+Proof. exists [LAppend; LAppend; LDelete 0]; eexists; eexists; split; [vm_compute; reflexivity | discriminate]. Qed.
+
+Theorem plist_index_overflow_orig_refuted_lemma :
+  exists ops, history Orig ops (start None) = Fault IntOverflow.
+Proof. exists [LSet INT_MAX]; vm_compute; reflexivity. Qed.
+
+(* D55: a failed set is not atomic: the appended cell stays (the length grew) although the call
+   returned -1/ENOMEM.  This holds of the current code (Fixed) as well. *)
+Theorem plist_set_not_atomic_refuted_lemma :
+  exists l s op l' s', Inv l s /\ lstep Fixed l op s = Ok ((l', Err ENOMEM), s') /\ observe l' <> observe l.
+Proof.
+  exists (mkL 0%nat None 0 []), (mkA (Some 1%nat) [(0%nat, 32)] 1), LAppend.
+  eexists; eexists. split; [|split; [vm_compute; reflexivity | vm_compute; discriminate]].
+  destruct Inv_initial as [[Hnd Hlt] H]. split; [split; assumption | exact H].
+Qed.
